@@ -41,6 +41,28 @@ pub struct ASParameters {
     decay_coefficient: f64,
 }
 
+#[cfg(mahf_verif)]
+impl ASParameters {
+    /// Verification-only constructor (the fields are private).
+    pub fn verif_new(
+        num_ants: usize,
+        alpha: f64,
+        beta: f64,
+        default_pheromones: f64,
+        evaporation: f64,
+        decay_coefficient: f64,
+    ) -> Self {
+        Self {
+            num_ants,
+            alpha,
+            beta,
+            default_pheromones,
+            evaporation,
+            decay_coefficient,
+        }
+    }
+}
+
 /// Ant System (AS).
 ///
 /// Uses the [`aco`] component internally.
@@ -98,6 +120,30 @@ pub struct MMASParameters {
     min_pheromones: f64,
 }
 
+#[cfg(mahf_verif)]
+impl MMASParameters {
+    /// Verification-only constructor (the fields are private).
+    pub fn verif_new(
+        num_ants: usize,
+        alpha: f64,
+        beta: f64,
+        default_pheromones: f64,
+        evaporation: f64,
+        max_pheromones: f64,
+        min_pheromones: f64,
+    ) -> Self {
+        Self {
+            num_ants,
+            alpha,
+            beta,
+            default_pheromones,
+            evaporation,
+            max_pheromones,
+            min_pheromones,
+        }
+    }
+}
+
 /// MAX-MIN Ant System (MMAS).
 ///
 /// Uses the [`aco`] component internally.
@@ -146,6 +192,20 @@ pub struct Parameters<P> {
     generation: Box<dyn Component<P>>,
     /// Updates the pheromone matrix using the objective values of the sampled population.
     pheromone_update: Box<dyn Component<P>>,
+}
+
+#[cfg(mahf_verif)]
+impl<P> Parameters<P> {
+    /// Verification-only constructor (the fields are private).
+    pub fn verif_new(
+        generation: Box<dyn Component<P>>,
+        pheromone_update: Box<dyn Component<P>>,
+    ) -> Self {
+        Self {
+            generation,
+            pheromone_update,
+        }
+    }
 }
 
 /// A generic single-objective Ant Colony Optimization (ACO) template.
